@@ -89,4 +89,24 @@ CHECKS = {
              'separation, output == number of active runs at every change and 0 when idle, stop_data started last. '
              'Thorough enumerates all multisets of <=3 arrivals on a 7-point grid x durations x stop instants.',
         note='Completion, cancellation causes and stop_data order are asserted only with a generous stop_timeout, as the property conditions them on it.'),
+    'C03': dict(
+        level='exploration', design_ref='DESIGN.md 4/C03',
+        technique=PBT + '; own interpreter of docs/FSM.rst run against FSM classes generated with type(); complete ordered log of hooks and events compared; exhaustive transition tables (thorough)',
+        text='Generated FSM classes (rules in every notation, any-state / specific / forbidden, conditions, entry and exit '
+             'actions as methods and instance callbacks, chained transitions requested once or twice, calc_output maps '
+             'with UNDEF, on_enter/on_exit/on_notrans/on_output events) driven by histories of table events, unknown '
+             'events and Goto with data; after every step return value, state, output and the complete ordered log '
+             '(what every hook saw through fsm_event_data, state and output at that moment) must equal the reference '
+             'interpreter. Thorough enumerates all 625 one-event tables x sequences of length 5 and all 390625 '
+             'two-event tables x sequences of length 2 over 3 states.',
+        note='instance callback / class method of one hook are compared as an unordered pair (documented freedom).'),
+    'C04': dict(
+        level='exploration', design_ref='DESIGN.md 4/C04',
+        technique=PBT + '; discrete-event reference interpreter on the virtual clock, set-valued at ties between a driver action and an expiry; exhaustive duration x event grid (thorough)',
+        text='Generic timed FSMs (durations 0, positive, INF, None with t_STATE or per-event override, unit strings, '
+             'negative; timed event = table event that may be rejected, or Goto), Timer (t_on/t_off/t_period/restartable) '
+             'and InputExp (duration, per-event duration) with external events placed before, exactly at and after the '
+             'expiries, driven from a task and from timer callbacks; compared: log with virtual timestamps, state, '
+             'output, get_state() expiry, number of live timer handles (<=1, 0 after stop), nothing delivered after stop.',
+        note='Virtual time is exact on the 0.5 s grid; expiry reported by get_state() compared with 1e-4 s tolerance.'),
 }
